@@ -7043,7 +7043,13 @@ fn is_running_loop(expr_state: &ExpressionState) -> bool {
     )
 }
 
-fn eval_break(env: &mut Env, expr_value_is_used: bool) {
+fn eval_break(env: &mut Env, _expr_value_is_used: bool) {
+    // Whether the value of the loop we're leaving is used. This is
+    // unrelated to whether the value of the `break` expression itself
+    // is used (e.g. `let x = if done { break } else { 1 }`): whatever
+    // was waiting for that value is discarded below.
+    let mut loop_value_is_used = false;
+
     // Pop all the currently evaluating expressions until we are no
     // longer inside the innermost loop.
     while let Some((expr_state, expr)) = env.current_frame_mut().exprs_to_eval.pop() {
@@ -7065,6 +7071,7 @@ fn eval_break(env: &mut Env, expr_value_is_used: bool) {
                     env.current_frame_mut().bindings.pop_block();
                 }
 
+                loop_value_is_used = expr.value_is_used;
                 env.current_frame_mut()
                     .exprs_to_eval
                     .push((ExpressionState::EvaluatedSubexpressions, Rc::clone(&expr)));
@@ -7080,6 +7087,7 @@ fn eval_break(env: &mut Env, expr_value_is_used: bool) {
                 env.pop_value()
                     .expect("Index used by `for` should be present");
 
+                loop_value_is_used = expr.value_is_used;
                 env.current_frame_mut()
                     .exprs_to_eval
                     .push((ExpressionState::EvaluatedSubexpressions, Rc::clone(&expr)));
@@ -7101,7 +7109,7 @@ fn eval_break(env: &mut Env, expr_value_is_used: bool) {
     }
 
     // Loops always evaluate to unit.
-    if expr_value_is_used {
+    if loop_value_is_used {
         env.push_value(Value::unit());
     }
 }
